@@ -2,6 +2,8 @@
 package c10
 
 import (
+	"github.com/golang/glog"
+
 	"fmt"
 	"math/rand"
 	"strings"
@@ -91,7 +93,7 @@ func cases(run *ev.Run) []caseSpec {
 	for _, f := range cat {
 		out = append(out, caseSpec{id: "single:" + f.String(), faults: []fault{f}})
 	}
-	nSeq := run.Pick(60, 3000)
+	nSeq := run.Pick(200, 3000)
 	for i := 0; i < nSeq; i++ {
 		id := fmt.Sprintf("sequence-%d", i)
 		r := run.Rand(id)
@@ -540,6 +542,7 @@ func TestChild(t *testing.T) {
 	}
 	defer wr.Close()
 	drv.Watchdog = 20 * time.Second
+	glog.SetStall(func() { time.Sleep(30 * time.Microsecond) }) // logging can hold a goroutine up
 	run := &ev.Run{Prop: "C10", Tier: sp.Tier, Seed: sp.Seed}
 	cs := cases(run)
 	var lo, hi int
